@@ -95,6 +95,13 @@ func (i *Interp) runInits() (err error) {
 	if shim := i.P.ssaPkgs[modPath+"/internal/zzverifshim"]; shim != nil {
 		visit(shim.Pkg)
 	}
+	// os.Args for packages (flag) whose initialisers read it
+	if osp := i.P.ssaPkgs["os"]; osp != nil {
+		if g, ok := osp.Members["Args"].(*ssa.Global); ok {
+			cell := i.globalAddr(i.P.prog.globalIndex(g)).(*value)
+			*cell = []value{"prog"}
+		}
+	}
 	for _, p := range i.P.initOrder {
 		if !need[p.Pkg] || skipInit[p.Pkg.Path()] {
 			continue
